@@ -9,7 +9,6 @@
 
 use std::io::Write;
 
-mod probe;
 
 use textwrap::core::{break_words, display_width, Word};
 use textwrap::wrap_algorithms::wrap_first_fit;
@@ -32,6 +31,23 @@ fn auto_traits() {
     assert_send_sync::<Word<'static>>();
     #[cfg(feature = "full")]
     assert_send_sync::<Penalties>();
+}
+
+#[cfg(feature = "full")]
+fn optimal_alg() -> WrapAlgorithm {
+    WrapAlgorithm::new_optimal_fit()
+}
+#[cfg(not(feature = "full"))]
+fn optimal_alg() -> WrapAlgorithm {
+    WrapAlgorithm::FirstFit
+}
+#[cfg(feature = "full")]
+fn optimal_lines(words: &[Word<'_>]) -> usize {
+    textwrap::wrap_algorithms::wrap_optimal_fit(words, &[10.0, 20.0], &Penalties::new()).map(|l| l.len()).unwrap_or(0)
+}
+#[cfg(not(feature = "full"))]
+fn optimal_lines(_words: &[Word<'_>]) -> usize {
+    0
 }
 
 fn marker(s: &str) {
@@ -80,7 +96,7 @@ fn census() {
 
     marker("@@CENSUS-BEGIN@@\n");
     for &w in &widths {
-        for alg in [WrapAlgorithm::FirstFit, probe::optimal_alg()] {
+        for alg in [WrapAlgorithm::FirstFit, optimal_alg()] {
             for sep in [WordSeparator::AsciiSpace, WordSeparator::new()] {
                 for bw in [false, true] {
                     for splitter in [WordSplitter::NoHyphenation, WordSplitter::HyphenSplitter] {
@@ -127,125 +143,18 @@ fn census() {
             textwrap::word_splitters::split_words(words, &WordSplitter::HyphenSplitter).collect();
         let broken = break_words(split, 5);
         wrap_first_fit(&broken, &[10.0, 20.0]).len() as u64
-            + probe::optimal_shape(&broken, &[10.0, 20.0]).len() as u64
+            + optimal_lines(&broken) as u64
     }));
     marker("@@CENSUS-END@@\n");
 
     println!("census checksum {acc} panicked_calls {panics}");
 }
 
-fn arg_val(name: &str) -> Option<String> {
-    let a: Vec<String> = std::env::args().collect();
-    a.iter().position(|x| x == name).and_then(|i| a.get(i + 1).cloned())
-}
-
-/// `--dump-key <hex>`: after the digest, print the key and result whose key hash is <hex>
-/// (and, for the hot pass, where that key was first executed).
-fn dump_key(m: &std::collections::BTreeMap<String, String>, first: Option<&std::collections::BTreeMap<String, String>>) {
-    let all = std::env::args().any(|a| a == "--dump-all");
-    if let Some(h) = arg_val("--dump-key").or(if all { Some(String::new()) } else { None }) {
-        println!("@@DUMP@@");
-        // map order is sorted by key; the reference pass executes in REVERSE of it
-        for (k, v) in m.iter().rev() {
-            if all || format!("{:016x}", probe::fnv(k)) == h {
-                println!("key    {k}");
-                println!("result {v:?}");
-                println!("result-hash {:016x}", probe::fnv(v));
-                if let Some(f) = first.and_then(|f| f.get(k)) {
-                    println!("first-at {f}");
-                }
-            }
-        }
-    }
-}
-
-/// `probe`: hot pass (seeded multi-thread call histories with injected events);
-/// `probe --cold`: the fresh-process reference pass. Both print one
-/// "<key-hash> <result-hash>" line per key after a "@@DIGEST@@" marker; the
-/// driver script diffs them.
-fn probe_main() {
-    let seed: u64 = arg_val("--seed").and_then(|s| s.parse().ok()).unwrap_or(1);
-    let runs: u64 = arg_val("--runs").and_then(|s| s.parse().ok()).unwrap_or(200);
-    if std::env::args().any(|a| a == "--parallel") {
-        match probe::parallel_pass(seed) {
-            Ok(line) => println!("{line}"),
-            Err(report) => {
-                println!("{report}");
-                std::process::exit(3);
-            }
-        }
-        return;
-    }
-    let b = probe::Batch { seed, runs };
-    if std::env::args().any(|a| a == "--cold") {
-        // `--cold-window <keyhash>:<n>`: only the n calls preceding that key, then the key
-        let window = arg_val("--cold-window")
-            .and_then(|w| w.split_once(':').map(|(k, n)| (k.to_string(), n.parse::<usize>().unwrap_or(0))));
-        let m = probe::cold_pass(&b, window);
-        println!("cold pass: seed {seed} runs {runs} keys {}", m.len());
-        println!("@@DIGEST@@");
-        print!("{}", probe::digest_map(&m));
-        dump_key(&m, None);
-        return;
-    }
-    let only = arg_val("--only-run").and_then(|s| s.parse::<u64>().ok()).map(|r| {
-        let keep = arg_val("--keep").map(|k| k.split(',').filter_map(|x| x.parse().ok()).collect::<Vec<usize>>());
-        (r, keep)
-    });
-    // `--expect <keyhash>:<resulthash>`: (with --only-run) exit 3 if that key was
-    // executed and its result differs from the given fresh-process result.
-    let expect = arg_val("--expect").and_then(|e| e.split_once(':').map(|(a, b)| (a.to_string(), b.to_string())));
-    match probe::hot_pass(&b, only) {
-        Ok((st, m, first)) => {
-            if let Some((kh, rh)) = &expect {
-                for (k, v) in &m {
-                    if format!("{:016x}", probe::fnv(k)) == *kh && format!("{:016x}", probe::fnv(v)) != *rh {
-                        println!("HISTORY-DEPENDENT seed={seed} key={k:?}");
-                        println!("  in this history ({}) -> {v:?}", first.get(k).map(|s| s.as_str()).unwrap_or("?"));
-                        println!("  fresh process, single call -> result hash {rh} (see the cold-pass dump in the replay file)");
-                        println!("  steps:");
-                        for (i, line) in probe::steps_of_run(&b, arg_val("--only-run").and_then(|s| s.parse().ok()).unwrap_or(0),
-                            arg_val("--keep").map(|k| k.split(',').filter_map(|x| x.parse().ok()).collect::<Vec<usize>>())).iter().enumerate() {
-                            println!("    [{i}] {line}");
-                        }
-                        std::process::exit(3);
-                    }
-                }
-            }
-            println!(
-                "hot pass: seed {seed} runs {} calls {} distinct_keys {} repeated_key_executions {} \
-                 keys_on_2plus_threads {} keys_in_2plus_storages {} buffer_reuses_new_contents {} shared_buffer_calls {} \
-                 worker_restarts {} faults_armed {} faults_fired {} calls_after_fault_same_thread {} callback_invocations {} \
-                 distinct_call_orders {} library_internal_scheduling_points 0",
-                st.runs, st.calls, st.distinct_keys, st.repeated_key_executions, st.keys_seen_on_2plus_threads,
-                st.keys_seen_in_2plus_storages, st.buffer_reuses_with_new_contents, st.shared_buffer_calls,
-                st.worker_restarts, st.faults_armed, st.faults_fired, st.calls_after_a_fault_on_same_thread,
-                st.callback_invocations, st.distinct_call_orders
-            );
-            println!("@@DIGEST@@");
-            print!("{}", probe::digest_map(&m));
-            dump_key(&m, Some(&first));
-        }
-        Err(mm) => {
-            println!("HISTORY-DEPENDENT seed={seed} run={} key={:?}", mm.run, mm.key);
-            println!("  first  ({}) -> {:?}", mm.first, mm.first_result);
-            println!("  second ({}) -> {:?}", mm.second, mm.second_result);
-            println!("  steps of run {} up to the mismatch:", mm.run);
-            let keep = arg_val("--keep").map(|k| k.split(',').filter_map(|x| x.parse().ok()).collect::<Vec<usize>>());
-            for (i, line) in probe::steps_of_run(&b, mm.run, keep).iter().take(mm.steps.len()).enumerate() {
-                println!("    [{i}] {line}");
-            }
-            std::process::exit(3);
-        }
-    }
-}
-
 fn main() {
     match std::env::args().nth(1).as_deref() {
         Some("census") => census(),
-        Some("probe") => probe_main(),
         _ => {
-            eprintln!("usage: premise_audit census | probe [--seed N] [--runs N] [--cold] [--only-run R [--keep i,j,..]] [--replay-dir DIR]");
+            eprintln!("usage: premise_audit census");
             std::process::exit(2);
         }
     }
